@@ -211,7 +211,7 @@ def run_task(task):
 
 
 TIERS = {"quick": {"worlds": [("W1", "rev"), ("W2", "rev"), ("W3", "default")], "active": [0, 1]},
-         "thorough": {"worlds": [("W1", "dev1"), ("W2", "dev1"), ("W3", "rev")], "active": [0, 1, 2, 3]}}
+         "thorough": {"worlds": [("W1", "dev1"), ("W1c", "rev"), ("W2", "dev1"), ("W3", "rev"), ("W4", "default")], "active": [0, 1, 2, 3]}}
 
 
 def make_tasks(tier):
